@@ -261,6 +261,11 @@ inductive JVal
 inductive JFields
   | nil
   | cons (g0 : Bytes) (key : Scal) (g1 : Bytes) (op : Op) (v : JVal) (rest : JFields)
+  /-- `key { … }`: the `=` before a `{` is optional (never on the first field of a nested container,
+  where `b { … }` is an array starting with `b`) -/
+  | consImp (g0 : Bytes) (key : Scal) (v : JVal) (rest : JFields)
+  /-- ghost `{}` in key position: leaves no trace -/
+  | ghost (g gc : Bytes) (rest : JFields)
 inductive JVals
   | nil
   | cons (v : JVal) (rest : JVals)
@@ -277,10 +282,17 @@ def jrenderV : JVal → Bytes
 def jrenderF : JFields → Bytes
   | .nil => []
   | .cons g0 k g1 o v rest => g0 ++ (k.text ++ (g1 ++ (o.text ++ (jrenderV v ++ jrenderF rest))))
+  | .consImp g0 k v rest => g0 ++ (k.text ++ (jrenderV v ++ jrenderF rest))
+  | .ghost g gc rest => g ++ 123 :: (gc ++ 125 :: jrenderF rest)
 def jrenderVs : JVals → Bytes
   | .nil => []
   | .cons v rest => jrenderV v ++ jrenderVs rest
 end
+
+/-- a value written with braces. -/
+def JVal.isBraced : JVal → Prop
+  | .scal .. => False
+  | _ => True
 
 /-- a non-empty container (what may stand first in an `arrC`; a leading `{}` would be dropped by
 the parser as a ghost object, the kind of the container not being known yet). -/
@@ -311,6 +323,11 @@ def JValidF : JFields → Bytes → Prop
   | .cons g0 k g1 o v rest, after =>
     Blank g0 ∧ Blank g1 ∧ k.Valid ∧ (k.quoted = false → StartsBoundary (g1 ++ o.text)) ∧
     JValidV v (jrenderF rest ++ after) ∧ JValidF rest after
+  | .consImp g0 k v rest, after =>
+    Blank g0 ∧ k.Valid ∧ v.isBraced ∧
+    (k.quoted = false → StartsBoundary (jrenderV v ++ (jrenderF rest ++ after))) ∧
+    JValidV v (jrenderF rest ++ after) ∧ JValidF rest after
+  | .ghost g gc rest, after => Blank g ∧ Blank gc ∧ JValidF rest after
 def JValidVs : JVals → Bytes → Prop
   | .nil, _ => True
   | .cons v rest, after => JValidV v (jrenderVs rest ++ after) ∧ JValidVs rest after
@@ -326,6 +343,8 @@ def jcntV : JVal → Nat
 def jcntF : JFields → Nat
   | .nil => 0
   | .cons _ _ _ o v rest => (1 + o.toks.length + jcntV v) + jcntF rest
+  | .consImp _ _ v rest => (1 + jcntV v) + jcntF rest
+  | .ghost _ _ rest => jcntF rest
 def jcntVs : JVals → Nat
   | .nil => 0
   | .cons v rest => jcntV v + jcntVs rest
@@ -359,6 +378,10 @@ def jtapeF : JFields → Nat → Bytes → List Tok
     [k.tok (g1 ++ (o.text ++ (jrenderV v ++ (jrenderF rest ++ after))))] ++ o.toks ++
       jtapeV v (base + 1 + o.toks.length) (jrenderF rest ++ after) ++
       jtapeF rest (base + (1 + o.toks.length + jcntV v)) after
+  | .consImp _ k v rest, base, after =>
+    [k.tok (jrenderV v ++ (jrenderF rest ++ after))] ++
+      jtapeV v (base + 1) (jrenderF rest ++ after) ++ jtapeF rest (base + (1 + jcntV v)) after
+  | .ghost _ _ rest, base, after => jtapeF rest base after
 def jtapeVs : JVals → Nat → Bytes → List Tok
   | .nil, _, _ => []
   | .cons v rest, base, after =>
@@ -376,6 +399,8 @@ def jstepsV : JVal → Nat
 def jstepsF : JFields → Nat
   | .nil => 0
   | .cons _ _ _ _ v rest => 2 + jstepsV v + jstepsF rest
+  | .consImp _ _ v rest => 2 + jstepsV v + jstepsF rest
+  | .ghost _ _ rest => 1 + jstepsF rest
 def jstepsVs : JVals → Nat
   | .nil => 0
   | .cons v rest => jstepsV v + jstepsVs rest
@@ -411,6 +436,8 @@ def kcontentV : JVal → KVal
 def kcontentF : JFields → KFields
   | .nil => .nil
   | .cons _ k _ o v rest => .cons k o (kcontentV v) (kcontentF rest)
+  | .consImp _ k v rest => .cons k .eq (kcontentV v) (kcontentF rest)
+  | .ghost _ _ rest => kcontentF rest
 def kcontentVs : JVals → KVals
   | .nil => .nil
   | .cons v rest => .cons (kcontentV v) (kcontentVs rest)
